@@ -112,7 +112,8 @@ def _tlc_traces(ctx, traces, nshards):
                           env={"VF_TRACE": p}, deadlock=False, name="c13mon_" + os.path.basename(p), quiet=True)
 
     mon, acc, st, trn = {}, set(), 0, 0
-    with cf.ThreadPoolExecutor(nshards) as ex:
+    with cf.ThreadPoolExecutor(nshards + 2) as ex:
+        early = [ex.submit(monr, p) for p in (_shard(ctx, traces, sorted(noconf), 2, "wire") if noconf else [])]
         for r in ex.map(conf, _shard(ctx, traces, ids, nshards, "conf")):
             if not r.ok:
                 raise vf.Inconclusive("TLC conformance run on real traces failed: %s\n%s" % (r.error or r.violated, r.out[-2000:]))
@@ -121,9 +122,10 @@ def _tlc_traces(ctx, traces, nshards):
                 mon[a["id"]] = dict(id=a["id"], viol=a["viol"], first=0, execs=a["execs"], sent=a["sent"])
             st += r.distinct
             trn += r.generated
-        rejected = [t for t in ids if t not in acc] + sorted(noconf)
-        if rejected:
-            for r in ex.map(monr, _shard(ctx, traces, rejected, nshards, "mon")):
+        rejected = [t for t in ids if t not in acc]
+        late = list(ex.map(monr, _shard(ctx, traces, rejected, nshards, "mon"))) if rejected else []
+        if early or late:
+            for r in [f.result() for f in early] + late:
                 if not r.ok:
                     raise vf.Inconclusive("TLC monitor run on real traces failed: %s\n%s" % (r.error or r.violated, r.out[-2000:]))
                 for m in vf.tlc_printed(r.out, "MON"):
@@ -131,7 +133,7 @@ def _tlc_traces(ctx, traces, nshards):
                 st += r.distinct
                 trn += r.generated
     ctx.log("TLC on %d real traces: %d conform to Executor.tla, %d do not (monitored separately); %d wire-level concurrent "
-            "traces monitored only" % (len(ids), len(acc), len(rejected) - len(noconf), len(noconf)))
+            "traces monitored only" % (len(ids), len(acc), len(rejected), len(noconf)))
     return mon, acc | noconf, st, trn
 
 
@@ -150,7 +152,8 @@ def run(ctx):
         main_cfg = "MC_Executor_quick.cfg" if quick else "MC_Executor_thorough.cfg"
         jobs["main"] = ex.submit(vf.run_tlc, ctx, "MC_Executor", main_cfg, workers=max(4, vf.NCPU - 6), timeout=1500,
                                  heap="4g" if quick else "14g")
-        jobs["live"] = ex.submit(vf.run_tlc, ctx, "MC_Executor", "MC_Executor_live.cfg", workers=2, timeout=600, heap="2g")
+        if not quick:  # liveness (<>returned under weak fairness) is part of the thorough tier
+            jobs["live"] = ex.submit(vf.run_tlc, ctx, "MC_Executor", "MC_Executor_live.cfg", workers=2, timeout=900, heap="2g")
         jobs["defect"] = ex.submit(vf.run_tlc, ctx, "MC_Executor", "MC_Executor_defect.cfg", workers=1, timeout=300, heap="2g")
         jobs["witness"] = ex.submit(vf.run_tlc, ctx, "MC_Executor", "MC_Executor_witness.cfg", workers=2, timeout=600, heap="2g")
         jobs["tempting"] = ex.submit(vf.run_tlc, ctx, "MC_Executor", "MC_Executor_tempting.cfg", workers=1, timeout=300, heap="2g")
@@ -165,7 +168,7 @@ def run(ctx):
     mc = res["main"]
     if not mc.ok:
         raise vf.Inconclusive("model pass failed: violated=%s error=%s\n%s" % (mc.violated, mc.error, "\n".join(mc.out.splitlines()[-40:])))
-    if not res["live"].ok:
+    if "live" in res and not res["live"].ok:
         raise vf.Inconclusive("liveness pass failed: %s %s" % (res["live"].violated, res["live"].error))
     # negative controls: the model of the code as it is violates the documented clause; the bound
     # budget + executions is reached; budget + 1 is too tight under speculation
@@ -173,8 +176,8 @@ def run(ctx):
         if res[k].violated != inv:
             raise vf.Inconclusive("control run %s: expected TLC to violate %s, got violated=%s error=%s" % (
                 k, inv, res[k].violated, res[k].error))
-    states = mc.distinct + res["live"].distinct
-    trans = mc.generated + res["live"].generated
+    states = mc.distinct + (res["live"].distinct if "live" in res else 0)
+    trans = mc.generated + (res["live"].generated if "live" in res else 0)
     seq_cases, seq_r = res["seq"]
     conc_cases, _ = res["conc"]
     if not quick:
@@ -239,7 +242,22 @@ def run(ctx):
         len(sums), sum(1 for s in sums if s["exact"]), len(fsums) - len(esums), len(esums)))
 
     # ---------------------------------------------------------------- 4. TLC over the real traces
-    mon, acc, tst, ttr = _tlc_traces(ctx, traces, 6 if quick else 14)
+    # A replay whose recorded trace is event for event the model behaviour it was generated from needs no second
+    # opinion: TLC produced that behaviour with NoViolation checked on it (the dump configurations).  Equality
+    # is established here, on the recorded file.  TLC validates every other real trace and every 8th exact one.
+    casesby0 = {c["id"]: c for c in cases}
+    ev6 = lambda e: (e["ev"], e["e"], e["h"], e["n"], e["x"], e["y"])
+    same = [t for t in traces if t in casesby0 and [ev6(e) for e in traces[t][1:-1]] == [ev6(e) for e in casesby0[t]["hist"]]]
+    bound_by_equality = set(t for i, t in enumerate(same) if i % 8 != 0)
+    totlc = collections.OrderedDict((t, traces[t]) for t in traces if t not in bound_by_equality)
+    mon, acc, tst, ttr = _tlc_traces(ctx, totlc, 4 if quick else 14)
+    for t in bound_by_equality:
+        evs = traces[t]
+        mon[t] = dict(id=t, viol=[], first=0, execs=len({e["e"] for e in evs if e["e"] > 0}),
+                      sent=sum(1 for e in evs if e["ev"] == "start" and e["x"] == "sent"))
+        acc.add(t)
+    ctx.log("%d replays equal their model behaviour event for event (%d of them also validated by TLC)" % (
+        len(same), len(same) - len(bound_by_equality)))
     if set(mon.keys()) != set(traces.keys()):
         raise vf.Inconclusive("monitor produced %d verdicts for %d traces" % (len(mon), len(traces)))
     _confirm_timing_dependent(ctx, binary, cases, traces, sumby, mon)
@@ -257,11 +275,12 @@ def run(ctx):
         wire_level_concurrent_traces_monitored_only=nspec,
         exhaustive=True,
         model_configs=[dict(cfg=main_cfg, distinct=mc.distinct, generated=mc.generated, depth=mc.depth),
-                       dict(cfg="MC_Executor_live.cfg", distinct=res["live"].distinct, generated=res["live"].generated)],
+                       ] + ([dict(cfg="MC_Executor_live.cfg", distinct=res["live"].distinct, generated=res["live"].generated)]
+                            if "live" in res else []),
         controls=dict(defect_model_violates="NonIdemNeverRetried", bound_reached="budget + executions (5 = 2 + 3)",
                       tempting_bound_violated="budget + 1"),
         model_behaviours_replayed=len(cases), sequential_behaviours=len(seq_cases), concurrent_behaviours=len(conc_cases),
-        replayed_exactly=exact, free_running_executions=len(fsums) - len(esums), end_to_end_statements=len(esums),
+        replayed_exactly=exact, replays_bound_by_equality_only=len(bound_by_equality), free_running_executions=len(fsums) - len(esums), end_to_end_statements=len(esums),
         statement_kinds=dict(collections.Counter("%s%s" % (t[0].get("stmt", "?"), "+observer" if t[0].get("observer") else "")
                                                  for t in traces.values())),
         real_traces=len(traces), real_traces_conforming=len(acc), real_traces_with_property_violation=nviol,
